@@ -8,7 +8,7 @@ pub fn check(tier: &str) -> i32 {
     let thorough = rep.thorough();
     rep.assume("soundness only (completeness is C04): every field of a ServiceResolved event must come from a record that the reference store says is live at the event's time");
     let scn = Scn { prop: Prop::C03, horizon_ms: 125_000, ops: OPS.to_vec(), host: HOST_PLAIN };
-    rep.run_bfs(&scn, if thorough { 5 } else { 4 }, Duration::from_secs(if thorough { 3000 } else { 50 }));
+    rep.run_bfs(&scn, if thorough { 5 } else { 4 }, Duration::from_secs(if thorough { 3000 } else { 110 }));
     // the same histories for a host name with ASCII and non-ASCII capital letters, one level less deep and
     // without verify (whether a verify also cuts the shared host's addresses for the *other* instance
     // is not fixed by the statement, and the implementation answers it differently for such names)
